@@ -453,6 +453,45 @@ fn alias_axis_query(out: &mut JobOut) {
     }
 }
 
+/// The axis handed to the builder is a strided view (every 2nd / 3rd element of a larger buffer whose
+/// other elements are decoys, or a reversed view of a descending buffer): the range ends are the
+/// view's first and last *elements*, wherever they live in memory.
+fn strided_axis_views(out: &mut JobOut) {
+    use ndarray::{s, Array1 as A1, Array2 as A2};
+    use ndarray_interp::interp1d::{cubic_spline::CubicSpline, Interp1DBuilder, Linear};
+    use ndarray_interp::interp2d::Interp2DBuilder;
+    let knots = [0.0, 2.0, 4.0, 6.5, 8.0];
+    let n = knots.len();
+    for (form, k) in [("every 2nd element", 2usize), ("every 3rd element", 3), ("reversed view of a descending buffer", 1)] {
+        // buffer: knots at the positions of the view, decoys (out of order values) between them
+        let buf: A1<f64> = if k == 1 { knots.iter().rev().cloned().collect() } else { (0..n * k).map(|i| if i % k == 0 { knots[i / k] } else { -77.0 + i as f64 * 100.0 }).collect() };
+        let view = if k == 1 { buf.slice(s![..;-1]) } else { buf.slice(s![..;k as isize]) };
+        assert_eq!(view.to_vec(), knots.to_vec());
+        let mut qs: Vec<f64> = knots.to_vec();
+        qs.extend([f64::from_bits(knots[n - 1].to_bits() - 1), 7.0, 7.99, 5.0, 1e-300, f64::from_bits(1)]);
+        let outside = [f64::from_bits(knots[n - 1].to_bits() + 1), 8.5, -1e-300, -1.0, 1e9];
+        let d1: A1<f64> = (0..n).map(|i| 10.0 + i as f64).collect();
+        let d2 = A2::from_shape_fn((n, n), |(i, j)| (i * n + j) as f64);
+        macro_rules! probe {
+            ($name:expr, $ask:expr) => {{
+                for (q, want_ok) in qs.iter().map(|&q| (q, true)).chain(outside.iter().map(|&q| (q, false))) {
+                    let r = catch(|| $ask(q));
+                    let got = match r { Ok(true) => "Ok".to_string(), Ok(false) => "Err(OutOfBounds)".to_string(), Err(_) => "panic".to_string() };
+                    verdict(out, &format!("strided-axis:{}:{form}", $name).replace(' ', "-"), $name, "interp", format!("query {q:e} on the axis {knots:?} given as {form}"), want_ok, got, true, &|| Json::obj(vec![("x", Json::f64s(&knots)), ("query", Json::Num(q)), ("axis_storage", Json::str(form))]));
+                }
+            }};
+        }
+        let Ok(lin) = Interp1DBuilder::new(d1.view()).x(view).strategy(Linear::new()).build() else { continue };
+        probe!("Linear", |q: f64| lin.interp_scalar(q).is_ok());
+        let Ok(spl) = Interp1DBuilder::new(d1.view()).x(view).strategy(CubicSpline::new()).build() else { continue };
+        probe!("CubicSpline", |q: f64| spl.interp_scalar(q).is_ok());
+        let Ok(bil) = Interp2DBuilder::new(d2.view()).x(view).y(view).build() else { continue };
+        probe!("Bilinear/x", |q: f64| bil.interp_scalar(q, 4.0).is_ok());
+        probe!("Bilinear/y", |q: f64| bil.interp_scalar(4.0, q).is_ok());
+        out.states += 3;
+    }
+}
+
 /// Every way to obtain a non-extrapolating interpolator: strategy from `new()`, from
 /// `Default::default()`, with `extrapolate(false)` spelled out, toggled on and off again; the
 /// interpolator from the builder and from `new_unchecked` (1-D, and 2-D on non-square grids in
@@ -570,12 +609,13 @@ fn body(ctx: &Ctx) -> (Summary, Meta) {
         let mut out = JobOut::default();
         int_axes(&mut out);
         alias_axis_query(&mut out);
+        strided_axis_views(&mut out);
         constructors(&mut out);
         out.sample = Some(Json::str("i64 / i32 / u32 / u8 axes incl. ends beyond 2^53 and at the type limits; queries that are views into the axis buffer"));
         out
     }));
     let meta = Meta {
-        rule: "every axis x {Linear, CubicSpline NotAKnot/Natural/Periodic/Individual, Bilinear on every ordered axis pair} x every entry point (scalar, interp, interp_into, interp_array and interp_array_into with static ranks 0..4 and dynamic rank) x single queries {ends, 1 and 2 ulp inside/outside, mid, +-inf, NaN, +-MAX, far} and batches of 10 shapes (up to 10 query axes) with one offending element {below, above, NaN, +inf} at every position and two at every pair; oracle: Ok iff every element lies in the closed range, else Err(OutOfBounds), never a panic. Plus integer axes (i64, i32, u32, u8; ends beyond 2^53 and at the limits of the type, queries one and two below / above the ends) and queries that are views into the buffer of the axis; every way to obtain a non-extrapolating interpolator (strategy from new() / Default::default() / extrapolate(false) / toggled, interpolator from the builder and from new_unchecked, non-square grids in both orientations). Non-trivial = expected Err, or query within 2 ulp of a range end.".into(),
+        rule: "every axis x {Linear, CubicSpline NotAKnot/Natural/Periodic/Individual, Bilinear on every ordered axis pair} x every entry point (scalar, interp, interp_into, interp_array and interp_array_into with static ranks 0..4 and dynamic rank) x single queries {ends, 1 and 2 ulp inside/outside, mid, +-inf, NaN, +-MAX, far} and batches of 10 shapes (up to 10 query axes) with one offending element {below, above, NaN, +inf} at every position and two at every pair; oracle: Ok iff every element lies in the closed range, else Err(OutOfBounds), never a panic. Plus integer axes (i64, i32, u32, u8; ends beyond 2^53 and at the limits of the type, queries one and two below / above the ends) and queries that are views into the buffer of the axis; every way to obtain a non-extrapolating interpolator (strategy from new() / Default::default() / extrapolate(false) / toggled, interpolator from the builder and from new_unchecked, non-square grids in both orientations). Non-trivial = expected Err, or query within 2 ulp of a range end. Axes given as strided views (every 2nd / 3rd element of a buffer with decoys in between, reversed view of a descending buffer) for Linear, CubicSpline and both axes of Bilinear: knots, ends, the floats next to the ends.".into(),
         bounds: format!("{njobs} (type, axis or grid) jobs; tier {}", ctx.tier.name()),
         assumptions: vec![],
         extra: vec![],
